@@ -56,7 +56,7 @@ func (c *Contract) byKind(k string) []*Clause {
 
 func (c *Contract) id() string { return c.Pkg + "." + c.Func }
 
-var clauseRe = regexp.MustCompile(`^(requires|ensures|loop|assigns|reads|option|func|lemma|props)\b(\[[A-Za-z0-9_.\-]+\])?\s*(.*)$`)
+var clauseRe = regexp.MustCompile(`^(requires|ensures|relates|loop|assigns|reads|option|func|lemma|props)\b(\[[A-Za-z0-9_.@+\-]+\])?\s*(.*)$`)
 
 // parseContracts reads the //@ clause blocks of a contracts file.
 func parseContracts(pkgPath, file string, src []byte) ([]*Contract, error) {
@@ -107,7 +107,7 @@ func parseContracts(pkgPath, file string, src []byte) ([]*Contract, error) {
 				return nil, fmt.Errorf("%s:%d: loop ordinal: %v", file, i+1, err)
 			}
 			sub = parts[1]
-			if m2 := regexp.MustCompile(`^(invariant|decreases)(\[[A-Za-z0-9_.\-]+\])?$`).FindStringSubmatch(sub); m2 != nil {
+			if m2 := regexp.MustCompile(`^(invariant|decreases)(\[[A-Za-z0-9_.@+\-]+\])?$`).FindStringSubmatch(sub); m2 != nil {
 				cl.Kind = m2[1]
 				cl.Label = strings.Trim(m2[2], "[]")
 			} else {
@@ -616,6 +616,25 @@ func (w *World) processRepoPackage(p *packages.Package, imp types.Importer) erro
 				fmt.Fprintf(&gen, "func %s(%s) bool { return %s }\n\n", cl.Pred, strings.Join(append(append([]string{}, params...), results...), ", "), expr)
 				if ant, ok := topAntecedent(cl.Expr); ok {
 					fmt.Fprintf(&gen, "func %s_ant(%s) bool { return %s }\n\n", cl.Pred, strings.Join(append(append([]string{}, params...), results...), ", "), rewriteImplies(ant))
+				}
+			case "relates":
+				if cl.Label == "" {
+					cl.Label = fmt.Sprintf("%d", nens)
+				}
+				nens++
+				cl.Pred = fmt.Sprintf("vcR_%s_%s", base, strings.ReplaceAll(sanitize(cl.Label), ".", "_"))
+				ren := func(xs []string) []string {
+					var r []string
+					for _, x := range xs {
+						i := strings.Index(x, " ")
+						r = append(r, x[:i]+"_2"+x[i:])
+					}
+					return r
+				}
+				all := append(append(append(append([]string{}, params...), ren(params)...), results...), ren(results)...)
+				fmt.Fprintf(&gen, "func %s(%s) bool { return %s }\n\n", cl.Pred, strings.Join(all, ", "), expr)
+				if ant, ok := topAntecedent(cl.Expr); ok {
+					fmt.Fprintf(&gen, "func %s_ant(%s) bool { return %s }\n\n", cl.Pred, strings.Join(all, ", "), rewriteImplies(ant))
 				}
 			case "invariant", "decreases":
 				if cl.Loop < 0 || cl.Loop >= len(loops) {
